@@ -19,7 +19,7 @@ def write(engine, prop, tier, seed, agg, wall, jobs, batch_digest, determinism,
     if not samples:
         samples = [{'note': 'no violation-free run recorded as sample'}]
     coverage = {
-        'evaluations': agg['n'],
+        'evaluations': agg['steps'] if info.get('evaluations') == 'steps' else agg['n'],
         'distinct_nontrivial': len(agg['states']),
         'rule': info['rule'],
         'samples': samples,
